@@ -227,6 +227,8 @@ def _hand_cases():
         ([vh("c1", r1), rv("c1")], sc("c1", r1), sc("c2", o1)),   # forward racing the incoming becoming irrevocable
         ([sc("c1", r1), vh("c1", r1), rv("c1"), sc("c2", o1)], vh("c1", []), inv1),
         ([], sc("c1", o1), sc("c2", o1)),                         # unbacked on both
+        ([], {"op": "IssueInvoice", "h": "h1", "a": 1}, sc("c1", o1)),                # the node's own invoice gives no allowance
+        ([{"op": "IssueInvoice", "h": "h1", "a": 1}], sc("c1", r1), sc("c2", o1)),
     ]
     return [{"chans": ch2, "hashes": h1, "prefix": p, "a": a, "b": b, "src": "hand"} for p, a, b in L]
 
